@@ -12,7 +12,7 @@
    RTI, and unchanged for every other instruction; taking an interrupt adds one. *)
 From Coq Require Import ZArith List Bool.
 From Model Require Import Bits Word Instr Sim.
-From Proofs Require Import SimAccess SimFrames IrqProofs SimStepObs SimStepFrames SimFrameList.
+From Proofs Require Import SimAccess SimFrames IrqProofs SimStepObs SimStepFrames SimFrameList SimStepFrames2.
 Import ListNotations.
 Open Scope Z_scope.
 
@@ -110,6 +110,19 @@ Theorem C27_run_example :
     s_frame_no s' = 0 /\ s_pc s' = 12289 /\ s_frames s' = Some [].
 Proof. exact ex_call_ret. Qed.
 Print Assumptions C27_run_example.
+(* the recorded frame of a call, at step level: a completed JSR / JSRR step with debug frames on pushes exactly
+   one frame — the address of the calling instruction, the subroutine start, kind Subroutine — on the unchanged
+   older frames *)
+Theorem C27_step_call_frame : forall e s s' u s1 w o fs, Completed e s s' u s1 w (SJSR o) ->
+  0 <= s_pc s < 65536 -> s_frames s = Some fs ->
+  exists top, s_frames s' = Some (top :: fs) /\
+    f_caller top = s_pc s /\ f_callee top = jsr_target s o /\ f_type top = FSubroutine.
+Proof. exact step_jsr_frame. Qed.
+Print Assumptions C27_step_call_frame.
+Theorem C27_call_target_def : forall s o,
+  jsr_target s o = match o with Imm off => wrap16 (wrap16 (s_pc s + 1) + off) | RegOp br => w_data (rget (s_regs s) br) end.
+Proof. reflexivity. Qed.
+Print Assumptions C27_call_target_def.
 (* second sentence: with debug frames on, the frame list has exactly as many entries as the reported depth —
    an invariant of [step_in] on EVERY path (completed steps, every error, interrupts, traps, exceptions vectored
    under real traps, strict-mode failures in the middle of an entry), hence of every run from a state that has it
